@@ -19,6 +19,15 @@ OK, FAIL, SKIP, XFAIL, XPASS = 'OK', 'FAIL', 'SKIP', 'EXPECTEDFAIL', 'UNEXPECTED
 WS = ' \t\r\n\x0b\x0c'
 
 
+def toint(digits: str) -> int:
+    """int() of a digit string of any length (CPython refuses more than 4300 digits at once)."""
+    n = 0
+    for k in range(0, len(digits), 4000):
+        part = digits[k:k + 4000]
+        n = n * 10 ** len(part) + int(part)
+    return n
+
+
 def _is_digits(s: str) -> bool:
     return s != '' and all(c in '0123456789' for c in s)
 
@@ -134,7 +143,7 @@ class TapRef:
                 self.late_flagged = True
                 errs.append('test after late plan')
             self.count += 1
-            self.last = int(numtxt) if numtxt else self.last + 1
+            self.last = toint(numtxt) if numtxt else self.last + 1
             self.highest = max(self.highest, self.last)
             self.numbers.append(self.last)
             if self.plan is not None and self.last > self.plan:
@@ -160,7 +169,7 @@ class TapRef:
             while i < len(rest) and rest[i] in '0123456789':
                 i += 1
             if i > 0:
-                n = int(rest[:i])
+                n = toint(rest[:i])
                 tail = rest[i:]
                 if self.plan is not None:
                     return Line('plan', None, 'must', 'second plan')
@@ -189,7 +198,7 @@ class TapRef:
             if i > 0:
                 if self.lineno != 1:
                     return Line('version', None, 'must', 'misplaced version line')
-                ver = int(v[:i])
+                ver = toint(v[:i])
                 self.version = ver
                 if ver < 13:
                     return Line('version', None, 'may', 'version below 13')
